@@ -8,6 +8,8 @@ import (
 	"crypto/elliptic"
 	"crypto/rand"
 	"crypto/rsa"
+	"crypto/sha256"
+	"strings"
 	"crypto/x509"
 	"crypto/x509/pkix"
 	"errors"
@@ -94,7 +96,23 @@ func init() {
 	IDByName["Custom"] = tls.HelloCustom
 }
 
+// LookupID resolves a ClientHelloID by its Str() name. "Name@n" gives the (randomized) ID a PRNG seed derived
+// from the integer n, so that the same name always yields the same fingerprint.
 func LookupID(name string) (tls.ClientHelloID, error) {
+	if i := strings.IndexByte(name, '@'); i > 0 {
+		id, err := LookupID(name[:i])
+		if err != nil {
+			return id, err
+		}
+		sum := sha256.Sum256([]byte("verif-seed-" + name[i+1:]))
+		seed := tls.PRNGSeed(sum)
+		id.Seed = &seed
+		return id, nil
+	}
+	return lookupPlain(name)
+}
+
+func lookupPlain(name string) (tls.ClientHelloID, error) {
 	id, ok := IDByName[name]
 	if !ok {
 		return id, fmt.Errorf("unknown ClientHelloID %q", name)
